@@ -915,6 +915,8 @@ add("C05", "revert: MAP builder indexes the value of the last key unconditionall
     "        values.append(seq_get(args, i + 1) or exp.Null())\n", "        values.append(args[i + 1])\n", "C05.s")
 add("C05", "hive named_struct builder walks up to len(args)", "sqlglot/parsers/hive.py",
     "    for i in range(0, len(args) - 1, 2):", "    for i in range(0, len(args), 2):", "C05.s")
+add("C05", "revert: connector function unpacks the argument list it just reported empty", "sqlglot/parser.py",
+    "            self.raise_error(\"Expected at least one argument\")\n            return exp.Paren()\n", "            self.raise_error(\"Expected at least one argument\")\n", "C05.t")
 add("C05", "revert: DEFAULT <property> dispatch outside the TypeError conversion", "sqlglot/parser.py",
     "                try:\n                    return self.PROPERTY_PARSERS[self._prev.text.upper()](self, default=True)\n                except TypeError:\n                    self.raise_error(f\"Cannot parse property '{self._prev.text}'\")\n",
     "                return self.PROPERTY_PARSERS[self._prev.text.upper()](self, default=True)\n", "C05.q")
